@@ -453,7 +453,8 @@ impl MixedColBuffer {
                 RawVal::Str(s) => string_col.push(&s),
                 RawVal::Int(i) => string_col.push(&i.to_string()),
                 RawVal::Float(f) => string_col.push(&f.to_string()),
-                RawVal::Null => {}
+                // Keep a placeholder so that later values stay in their row, the null map marks the row as NULL
+                RawVal::Null => string_col.push(""),
             }
         }
         string_col.finalize(name, present)
